@@ -45,6 +45,7 @@ func init() {
 			c.guard("guardidx", func() { ruleGuardIdx(c, "guardidx", "io/featio/bed", "io/featio/gff"); c.floor("guardidx", 50) })
 			c.guard("taintsize", func() { ruleTaintSize(c, "taintsize", "io/featio/bed", "io/featio/gff"); c.floor("taintsize", 1) })
 			c.guard("lencheck", func() { ruleLenCheck(c, "lencheck"); c.floor("lencheck", 1) })
+			c.guard("sentinel", func() { ruleSentinel(c, "sentinel", "io/featio/bed", "io/featio/gff"); c.floor("sentinel", 2) })
 			c.guard("lineio/eofhang", func() { ruleEOFPaths(c, "lineio/eofhang", "", "io/featio/bed", "io/featio/gff"); c.floor("lineio/eofhang", 3) })
 			c.guard("panicval", func() {
 				rulePanicVal(c, "panicval", "io/featio/bed", "io/featio/gff")
@@ -66,6 +67,7 @@ func init() {
 			c.guard("lineio/normalise", func() { ruleNormalise(c, "lineio/normalise", feat...); c.floor("lineio/normalise", 3) })
 			c.guard("lineio/fragments", func() { ruleFragments(c, "lineio/fragments", seqs...); c.floor("lineio/fragments", 10) })
 			c.guard("lineio/eofdata", func() { ruleDataOnEOF(c, "lineio/eofdata", seqs...) })
+			c.guard("lineio/rawline", func() { ruleRawLine(c, "lineio/rawline", seqs...); c.floor("lineio/rawline", 2) })
 			c.guard("bufalias", func() { ruleBufAlias(c, "bufalias", append(append([]string{}, feat...), seqs...)...); c.floor("bufalias", 4) })
 			c.guard("lineio/eofclean", func() { ruleEOFPaths(c, "", "lineio/eofclean", feat...); c.floor("lineio/eofclean", 3) })
 		},
@@ -83,6 +85,12 @@ func init() {
 			c.guard("tables/quality", func() { ruleQuality(c) })
 			c.guard("directsink", func() { ruleDirectSink(c, "directsink", seqs...); c.floor("directsink", 2) })
 			c.guard("prefixstrip", func() { rulePrefixStrip(c, "prefixstrip", seqs...); c.floor("prefixstrip", 2) })
+			c.guard("bareplus", func() { ruleBarePlus(c, "bareplus"); c.floor("bareplus", 2) })
+			c.guard("fresh/clonedeep", func() {
+				ruleCloneDeep(c, "fresh/clonedeep", "seq/linear", "(*Seq).Clone")
+				ruleCloneDeep(c, "fresh/clonedeep", "seq/linear", "(*QSeq).Clone")
+				c.floor("fresh/clonedeep", 2)
+			})
 		},
 	})
 	register(&propDef{
@@ -99,6 +107,7 @@ func init() {
 				c.floor("noskip", 2)
 			})
 			c.guard("zerocolour", func() { ruleZeroColour(c, "zerocolour"); c.floor("zerocolour", 1) })
+			c.guard("splitsep", func() { ruleSplitSep(c, "splitsep"); c.floor("splitsep", 6) })
 			c.guard("bytecount", func() { ruleByteCount(c, "bytecount", "io/featio/bed", "io/featio/gff"); c.floor("bytecount", 28) })
 		},
 	})
@@ -124,6 +133,11 @@ func init() {
 				ruleQTravel(c, "qtravel", [][2]string{{"seq/linear", "(*QSeq).RevComp"}, {"seq/linear", "(*QSeq).Reverse"}, {"seq/alignment", "(*QSeq).RevComp"}, {"seq/alignment", "(*QSeq).Reverse"}})
 				c.floor("qtravel", 4)
 			})
+			c.guard("mirror", func() { ruleMirrorTerms(c, "mirror", "(*Multi).RevComp", "(*Multi).Reverse"); c.floor("mirror", 2) })
+			c.guard("strandneg", func() {
+				ruleStrandNeg(c, "strandneg", [][2]string{{"seq/linear", "(*Seq).RevComp"}, {"seq/linear", "(*QSeq).RevComp"}, {"seq/alignment", "(*Seq).RevComp"}, {"seq/alignment", "(*QSeq).RevComp"}, {"seq/alignment", "Row.RevComp"}, {"seq/alignment", "QRow.RevComp"}})
+				c.floor("strandneg", 6)
+			})
 			c.guard("loopdep", func() {
 				ruleLoopDep(c, "loopdep", "seq/multi", "(*Multi).RevComp", "SetOffset")
 				ruleLoopDep(c, "loopdep", "seq/multi", "(*Multi).Reverse", "SetOffset")
@@ -138,6 +152,7 @@ func init() {
 		Assumptions: []string{"alphabet.Slice.Make allocates; Append/Copy write into their receiver's storage or a grown copy of it"},
 		Run: func(c *Ctx) {
 			c.guard("fresh/freshdst", func() { ruleFreshDst(c, "fresh/freshdst", "Join", "Truncate", "Stitch", "Compose"); c.floor("fresh/freshdst", 7) })
+			c.guard("slicebounds", func() { ruleSliceBounds(c, "slicebounds"); c.floor("slicebounds", 4) })
 			c.guard("mustpass", func() { ruleScratchReverse(c, "mustpass"); c.floor("mustpass", 1) })
 			c.guard("qtravel", func() {
 				ruleQTravel(c, "qtravel", [][2]string{{"seq/linear", "(*QSeq).RevComp"}, {"seq/linear", "(*QSeq).Reverse"}, {"seq/alignment", "(*QSeq).RevComp"}, {"seq/alignment", "(*QSeq).Reverse"}})
@@ -162,6 +177,10 @@ func init() {
 				c.floor("fresh/retain", 7)
 			})
 			c.guard("padfromends", func() { rulePadFromEnds(c, "padfromends"); c.floor("padfromends", 3) })
+			c.guard("stalebuf", func() {
+				ruleStaleBuf(c, "stalebuf", [][2]string{{"seq/alignment", "(*Seq).AppendEach"}, {"seq/alignment", "(*QSeq).AppendEach"}})
+				c.floor("stalebuf", 2)
+			})
 			c.guard("fresh/periter", func() {
 				for _, t := range [][2]string{
 					{"seq/alignment", "(*Seq).AppendColumns"}, {"seq/alignment", "(*Seq).AppendEach"},
@@ -182,6 +201,11 @@ func init() {
 		},
 	})
 	aligners := []string{"NW", "SW", "Fitted", "NWAffine", "SWAffine", "FittedAffine"}
+	// which gap models need initialised base cases: global alignments pay for leading gaps in
+	// both sequences; fitted alignments pay for leading query letters (row 0) and, in the affine
+	// variant, need the gap layers of column 0 closed off; local alignments start at zero anywhere.
+	borderRow := map[string]bool{"NW": true, "NWAffine": true, "Fitted": true, "FittedAffine": true}
+	borderCol := map[string]bool{"NW": true, "NWAffine": true, "FittedAffine": true}
 	register(&propDef{
 		ID: "C09",
 		Explanation: "sibling: for each of the six aligners, alignLetters and alignQLetters are compared as typed ASTs after canonicalisation (locals numbered by first use, alphabet.QLetters -> alphabet.Letters, X[e].L on a QLetters sequence -> X[e], *QLetters helper names -> *Letters, string literal contents and comments ignored): they must be the same program, which is the project's own mechanism for 'quality-carrying sequences give the same pairs'. argcheck: all twelve variants return ErrMatrixWrongSize under a comparison with alpha.Len() and ErrMatrixNotSquare inside the row loop before any table is indexed, and all six Align entry points return the four argument errors. livguard: every letter-index value (load from an alphabet.Index table) that flows through arithmetic into a subscript or a conversion to unsigned is sign-checked first: by a dominating comparison of that very value with 0, by an earlier loop over the same sequence whose negative edge returns and whose header dominates the use, or by a dominating AllValid/Validate call. livguard loop coverage: an earlier validating loop counts only if its check runs on every iteration and the linear forms of its index, bound and start value prove that it sweeps positions 0..len-1 of the same sequence. stride: in every subscript of the flattened matrix la[r*let+q] the index of a reference letter is multiplied by the row stride and the index of a query letter is not.",
@@ -208,6 +232,14 @@ func init() {
 				ruleDPStep(c, "dpstep", fns)
 				c.floor("dpstep", 60)
 			})
+			c.guard("bordercover", func() {
+				var fns []*ssa.Function
+				for _, a := range aligners {
+					fns = append(fns, c.fn("align", a+".alignLetters"), c.fn("align", a+".alignQLetters"))
+				}
+				ruleBorderCover(c, "bordercover", fns, borderRow, borderCol)
+				c.floor("bordercover", 14)
+			})
 		},
 	})
 	register(&propDef{
@@ -226,6 +258,7 @@ func init() {
 			c.guard("dpstep", func() { ruleDPStep(c, "dpstep", fnsOf()); c.floor("dpstep", 60) })
 			c.guard("stride", func() { ruleStride(c, "stride", fnsOf()); c.floor("stride", 100) })
 			c.guard("sibling", func() { ruleSibling(c, "sibling", aligners); c.floor("sibling", 6) })
+			c.guard("bordercover", func() { ruleBorderCover(c, "bordercover", fnsOf(), borderRow, borderCol); c.floor("bordercover", 14) })
 		},
 	})
 	register(&propDef{
@@ -244,6 +277,8 @@ func init() {
 			c.guard("maskguard", func() { ruleMaskGuard(c, "maskguard"); c.floor("maskguard", 2) })
 			c.guard("indexspace", func() { ruleIndexSpace(c, "indexspace"); c.floor("indexspace", 2) })
 			c.guard("watermark", func() { ruleWatermark(c, "watermark", c.fn("index/kmerindex", "(*Index).ForEachKmerOf")); c.floor("watermark", 2) })
+			c.guard("demandedbits", func() { ruleDemandedBits(c, "demandedbits"); c.floor("demandedbits", 3) })
+			c.guard("minrange", func() { ruleMinRange(c, "minrange") })
 		},
 	})
 	register(&propDef{
